@@ -240,4 +240,59 @@ theorem c14_item_trace_need_matrix [Scalar β] (a : Corr β) (h : a.N = 1) (i j 
     a.item i j = .error .needMatrix ∧ a.trace = .error .needMatrix := by
   simp [Corr.item, Corr.trace, h]
 
+/-! ### the constructor from an N × N array of single-valued correlators -/
+
+/-- **C14 (matrix correlator from an array of correlators), all inputs.**  Whatever array the constructor accepts: the result has
+    dimension N = number of rows, and on every timeslice `t` it is undefined exactly where SOME entry is undefined at `t`; where
+    it is defined, entry (i, j) of its matrix is the cell of correlator (i, j) at `t` - no transposition, no shift in `t`. -/
+theorem c14_ctor_matrix (cs : List (List (Corr β))) (c : Corr β) (h : Corr.ofMatrix cs = .ok c) :
+    c.N = cs.length ∧
+    ∀ t, t < c.T →
+      (∀ m, c.content[t]? = some (some m) →
+        ∀ i (hi : i < cs.length) j (hj : j < cs[i].length), (cs[i][j]).cell? t = (m[i]?.bind (·[j]?))) ∧
+      (c.content[t]? = some none ↔ ∃ i, ∃ hi : i < cs.length, ∃ j, ∃ hj : j < cs[i].length, (cs[i][j]).cell? t = none) := by
+  unfold Corr.ofMatrix at h
+  simp only [] at h
+  split at h
+  · cases h
+  split at h
+  · cases h
+  split at h
+  · cases h
+  rename_i c0 rest hfl
+  split at h
+  · cases h
+  injection h with h
+  subst h
+  refine ⟨rfl, ?_⟩
+  intro t ht
+  have ht' : t < c0.T := by simpa [Corr.T] using ht
+  have hcont : ((List.range c0.T).map (fun t => cs.mapM (fun r => r.mapM (fun x => x.cell? t))))[t]?
+      = some (cs.mapM (fun r => r.mapM (fun x => x.cell? t))) := by
+    simp [List.getElem?_map, List.getElem?_range ht']
+  show (∀ m, ((List.range c0.T).map (fun t => cs.mapM (fun r => r.mapM (fun x => x.cell? t))))[t]? = some (some m) → _) ∧
+    (((List.range c0.T).map (fun t => cs.mapM (fun r => r.mapM (fun x => x.cell? t))))[t]? = some none ↔ _)
+  rw [hcont]
+  constructor
+  · intro m hm
+    have hm' : cs.mapM (fun r => r.mapM (fun x => x.cell? t)) = some m := Option.some.inj hm
+    obtain ⟨hl, hk⟩ := (mapM_some_iff' _ cs m).1 hm'
+    intro i hi j hj
+    have hrow := hk i hi
+    have hmi : i < m.length := by omega
+    rw [List.getElem?_eq_getElem hmi] at hrow
+    obtain ⟨hl2, hk2⟩ := (mapM_some_iff' _ cs[i] m[i]).1 hrow
+    rw [List.getElem?_eq_getElem hmi]
+    simpa using hk2 j hj
+  · constructor
+    · intro hn
+      have hn' : cs.mapM (fun r => r.mapM (fun x => x.cell? t)) = none := Option.some.inj hn
+      obtain ⟨i, hi, hrow⟩ := (mapM_none_iff' _ cs).1 hn'
+      obtain ⟨j, hj, hcell⟩ := (mapM_none_iff' _ cs[i]).1 hrow
+      exact ⟨i, hi, j, hj, hcell⟩
+    · rintro ⟨i, hi, j, hj, hcell⟩
+      have hrow : cs[i].mapM (fun x => x.cell? t) = none := (mapM_none_iff' _ cs[i]).2 ⟨j, hj, hcell⟩
+      have : cs.mapM (fun r => r.mapM (fun x => x.cell? t)) = none := (mapM_none_iff' _ cs).2 ⟨i, hi, hrow⟩
+      rw [this]
+
 end PV
